@@ -526,6 +526,16 @@ func DrawCore(prop, tier string, ch *Chooser, lean bool, s *Sim) *Core {
 				t, _ = rec.TLV()
 				q.Bytes = encRaw(t)
 				q.Inline = false
+			} else if prop == "C13" && rec.Op == "extended" && j > startTLSAt && j != unbindAt && !neg && ch.Choose(3) == 0 {
+				// a name that is not the StartTLS name but close to it (white
+				// space or a NUL around it). Whatever the server makes of it,
+				// it must make the same of it everywhere: if the StartTLS route
+				// serves it, it is a StartTLS request and is handled on its own.
+				// The handler stays in flight and upgrades nothing.
+				rec.ExtName = []string{oidStartTLS + " ", " " + oidStartTLS, oidStartTLS + "\x00", oidStartTLS + "\t", oidStartTLS + "\n"}[ch.Choose(5)]
+				t, _ = rec.TLV()
+				q.Bytes = encRaw(t)
+				q.Script.Stall, q.Script.Panic = 1, false
 			}
 			c.reqs[rec.MsgID] = q
 			reqs = append(reqs, q)
